@@ -183,7 +183,7 @@ def run(chk):
         forced = strata[it] if it < len(strata) else None
         if forced:
             T = forced[0]
-        zeta = rng.choice([0.5, 1.0, 2.0, 3.0, 4.0])
+        zeta = rng.choice([0.5, 1.0, 1.5, 2.0, 2.5, 3.0, 4.0])
         wc = rng.choice([1.0, 3.0])
         ctype = rng.choice(["hard", "exponential", "gaussian"])
         if forced:
@@ -227,7 +227,8 @@ def run(chk):
                 t1 = rng.choice([2.0, 3.0, 2.5, 0.5, 4.0, 1.0]) * dt          # offsets other than one cell size, off-grid ones too
             elif shape in ("square", "rectangle") and rng.random() < 0.3:
                 t1 = rng.choice([0.0, 0.5 * dt])                        # cells on / straddling the diagonal
-            t2 = t1 + rng.randint(1, 3) * dt if shape == "rectangle" else None
+            # rectangles of whole cells, and rectangles shorter than (or not a multiple of) the cell size
+            t2 = t1 + (rng.randint(1, 3) if it % 2 == 0 else rng.choice([0.25, 0.6, 1.5, 2.5])) * dt if shape == "rectangle" else None
             got = complex(corr.correlation_2d_integral(dt, t1, t2, shape=shape, epsrel=eps))
             hi = {"square": lambda x: dt, "rectangle": lambda x: dt, "upper-triangle": lambda x: x - t1}[shape]
             b_ = t2 if t2 is not None else t1 + dt
@@ -265,6 +266,13 @@ def run(chk):
             r_bc = complex(corr.correlation_2d_integral(dt, rb, rc, shape="rectangle", epsrel=eps))
             r_sq = complex(corr.correlation_2d_integral(dt, ra, ra + dt, shape="rectangle", epsrel=eps))
             s_sq = complex(corr.correlation_2d_integral(dt, ra, shape="square", epsrel=eps))
+            # ... and a square split at an interior point: the two rectangles shorter than delta add up to it
+            cut_ = ra + rng.choice([0.25, 0.4, 0.7]) * dt
+            r_lo = complex(corr.correlation_2d_integral(dt, ra, cut_, shape="rectangle", epsrel=eps))
+            r_hi = complex(corr.correlation_2d_integral(dt, cut_, ra + dt, shape="rectangle", epsrel=eps))
+            if abs(r_lo + r_hi - s_sq) > 1e-6 * max(abs(s_sq), abs(tri)):
+                chk.fail("rectangle-additivity", f"{type(corr).__name__}: rect({ra:.3g},{cut_:.3g}) + rect({cut_:.3g},{ra + dt:.3g}) = {r_lo + r_hi:.8g}, the square at {ra:.3g} "
+                         f"is {s_sq:.8g} (rectangles shorter than delta)", dict(info, rect=[ra, cut_, ra + dt]))
             if abs(r_ab + r_bc - r_ac) > 1e-6 * max(abs(r_ac), abs(tri)) or abs(r_sq - s_sq) > 1e-6 * max(abs(s_sq), abs(tri)):
                 chk.fail("rectangle-additivity", f"{type(corr).__name__}: rectangles requested one after the other on one object: rect({ra:.3g},{rb:.3g}) + rect({rb:.3g},{rc:.3g}) "
                          f"= {r_ab + r_bc:.8g}, rect({ra:.3g},{rc:.3g}) = {r_ac:.8g}; rectangle of width delta {r_sq:.8g}, square {s_sq:.8g}", dict(info, rect=[ra, rb, rc]))
